@@ -367,16 +367,18 @@ W_Q = [("honest", 8, 60), ("chaos", 10, 60), ("admin", 6, 60)]
 W_T = [("honest", 120, 70), ("chaos", 160, 70), ("admin", 80, 70)]
 PLANS = {
     "C01": plan(["flow_q", "ibc_q"], ["flow_t", "ibc_t", "flow_treasury_t"], ["flow_q"], ["flow_t", "ibc_t"], W_Q, W_T, reach=["HonestOutstanding"]),
-    "C02": plan(["flow_q", "ibc_q"], ["flow_t", "ibc_t", "flow_treasury_t"], ["flow_treasury_q"], ["flow_t", "ibc_t", "flow_treasury_t"], W_Q, W_T, reach=["Received"]),
+    "C02": plan(["flow_q", "ibc_q", "fees_q"], ["flow_t", "ibc_t", "flow_treasury_t", "fees_t"], ["flow_treasury_q", "fees_q", "ibc_q"],
+                ["flow_t", "ibc_t", "flow_treasury_t", "fees_t"], W_Q, W_T, reach=["Received"]),
     "C03": plan(["flow_q", "ibc_q"], ["flow_t", "ibc_t"], ["flow_q"], ["flow_t", "ibc_t"], W_Q, W_T),
     "C04": plan(["flow_q"], ["flow_t"], ["flow_q"], ["flow_t"], W_Q, W_T),
     "C05": plan(["flow_q"], ["flow_t"], ["flow_q"], ["flow_t"], W_Q, W_T, reach=["Received"]),
     "C06": plan(["flow_q"], ["flow_t"], ["flow_q"], ["flow_t"], W_Q, W_T, reach=["Received"]),
     "C07": plan(["ibc_q"], ["ibc_t"], ["ibc_q"], ["ibc_t"], W_Q, W_T, reach=["Refundable"]),
-    "C08": plan(["gate_q"], ["gate_t"], ["gate_q"], ["gate_t"], W_Q, W_T),
+    "C08": plan(["gate_q", "own"], ["gate_t", "own_t"], ["gate_q", "own"], ["gate_t", "own_t"], W_Q, W_T),
     "C09": plan(["gate_q"], ["gate_t"], ["gate_q"], ["gate_t"], W_Q, W_T, scen=["C09"]),
     "C10": plan(["gate_q"], ["gate_t"], ["gate_q"], ["gate_t"], W_Q, W_T),
-    "C11": plan(["flow_q", "flow_treasury_q"], ["flow_t", "flow_treasury_t"], ["flow_treasury_q"], ["flow_t", "flow_treasury_t"], W_Q, W_T),
+    "C11": plan(["flow_q", "flow_treasury_q", "fees_q", "fee150_q"], ["flow_t", "flow_treasury_t", "fees_t", "fee150_q"],
+                ["flow_treasury_q", "fees_q", "fee150_q"], ["flow_t", "flow_treasury_t", "fees_t", "fee150_q"], W_Q, W_T),
     "C12": plan(["own"], ["own_t"], ["own"], ["own_t"], [("admin", 10, 60)], [("admin", 150, 70)]),
     "C13": plan(["treasury_q"], ["treasury_t"], ["treasury_q"], ["treasury_t"], [], []),
     "C16": plan(["flow_q", "gate_q"], ["flow_t", "ibc_t", "gate_t"], ["flow_treasury_q", "ibc_q", "gate_q", "own", "treasury_q"],
@@ -490,6 +492,42 @@ def hook_c19(binp, tier, seed, wd):
         log(f"[dual] {tag}: {n} line pairs (osmosis vs miniwasm build) compared by DualTrace in {wall:.1f}s: {len(fs)} differing lines")
         if fs:
             dual_find.append((tag, fb, fs[0]))
+    # wire level: every token-factory message of both builds against ProtoWire (spec/proto/TfWire.tla)
+    recs = os.path.join(wd, "tfwire.ndjson")
+    nrec = 0
+    with open(recs, "w") as outf:
+        for tag, b in (("osmosis", binp), ("miniwasm", bin_mw)):
+            raw = os.path.join(wd, f"raw-{tag}.ndjson")
+            rc, o = sh([b, "walk", raw, str(seed), "6" if tier == "quick" else "60", "60", "chaos"], env={"MWH_RAW": "1"}, timeout=900)
+            if rc != 0:
+                raise ToolError("raw walk failed\n" + o[-1000:])
+            for ln in open(raw):
+                e = json.loads(ln)
+                sub = e["call"].get("cfg", {}).get("sub", "stTIA") if e["call"]["m"] == "instantiate" else "stTIA"
+                for m in e["res"]["msgs"]:
+                    if "raw" not in m:
+                        continue
+                    contract = bytes(m["contract_raw"]).decode()
+                    denom = f"factory/{contract}/{sub}"
+                    outf.write(json.dumps({"build": e["build"], "url": m["url"], "k": m["k"], "bs": m["raw"], "contract": m["contract_raw"],
+                                           "denom": list(denom.encode()), "amount": list(str(m.get("amt", "")).encode()),
+                                           "sub": list(sub.encode())}) + "\n")
+                    nrec += 1
+    if nrec == 0:
+        raise ToolError("no token-factory messages recorded")
+    rc, out, wall = tlc(os.path.join(SPEC, "proto", "TfWire.tla"), os.path.join(SPEC, "proto", "TfWire.cfg"), wd, env={"TRACE": recs}, timeout=1200)
+    if f"TRACE-CONSUMED {nrec}" not in out:
+        raise ToolError("TfWire did not consume the records\n" + out[-2000:])
+    tf_fs = []
+    for x in out.splitlines():
+        m2 = FIND_RE.match(x.strip())
+        if m2:
+            tf_fs.extend(json.loads(unq(m2.group(1)))["fs"])
+    log(f"[tfwire] {nrec} token-factory messages of both builds decoded by ProtoWire under the target chain's descriptor in {wall:.1f}s: {len(tf_fs)} findings")
+    extra["tfwire_messages"] = nrec
+    extra["tfwire_findings"] = len(tf_fs)
+    if tf_fs:
+        viols.append(("tfwire", recs, tf_fs[0]))
     extra["dual_line_pairs_compared"] = nl
     extra["dual_differing_pairs"] = len(dual_find)
     for tag, fb, f in dual_find:
